@@ -133,14 +133,10 @@ Section Refine.
     intros Hf Hg. rewrite abs_insert, Hg. apply insert_id. rewrite abs_lookup, Hf. reflexivity.
   Qed.
 
-  Lemma ms_create_dir_ne (p : list (list N)) (s : mstate) : p <> [] ->
-    mem_step (CCreateDir p) s =
-    if bool_decide (is_Some (s !! removelast p)) then msec_sem (MInsertDir p) s else (s, fail EOther).
-  Proof. intros H. rewrite ms_create_dir. destruct p; [congruence|reflexivity]. Qed.
-  Lemma ms_create_file_ne (p : list (list N)) (s : mstate) : p <> [] ->
-    mem_step (CCreateFile p) s =
-    if bool_decide (is_Some (s !! removelast p)) then msec_sem (MInsertFile p) s else (s, fail EOther).
-  Proof. intros H. rewrite ms_create_file. destruct p; [congruence|reflexivity]. Qed.
+  Lemma has_parent_true (s : mstate) p : p <> [] -> is_dir s (removelast p) -> has_parent s p = true.
+  Proof.
+    intros Hne (d & Hd & Ht). unfold has_parent. destruct p; [congruence|]. now rewrite Hd, Ht.
+  Qed.
 
   Theorem refine_create_dir (s : mstate) p : wf s ->
     exists s' r, run bhandler (vp_create_dir mv p) (S s) = (S s', r) /\
@@ -149,14 +145,13 @@ Section Refine.
   Proof.
     intros Hwf. rewrite call_create_dir. unfold spec_create_dir.
     case_bool_decide as Hpar.
-    - destruct (decide (p = [])) as [->|Hne].
+    - rewrite ms_create_dir. cbn [msec_sem].
+      destruct (decide (p = [])) as [->|Hne].
       { (* the root: MemoryFS refuses *)
-        exists s, (Err (mkErr EOther (PPath []))). rewrite ms_create_dir. cbn [fst snd map_err].
+        exists s. eexists. split; [reflexivity|]. cbn [fst snd map_err has_parent].
         rewrite decide_False by (intros [H _]; congruence). auto. }
       rewrite decide_True by (apply parent_dir_abs; auto).
-      rewrite (ms_create_dir_ne p s Hne).
-      rewrite bool_decide_eq_true_2 by (destruct Hpar as (d & Hd & _); eauto).
-      cbn [msec_sem]. rewrite abs_lookup.
+      rewrite (has_parent_true s p Hne Hpar). rewrite abs_lookup.
       destruct (s !! p) as [f|] eqn:E; cbn [fst snd fmap option_fmap option_map].
       + exists s. eexists. split; [reflexivity|]. unfold absf.
         destruct (f_type f); cbn; auto.
@@ -296,12 +291,11 @@ Section RefineHandles.
     case_bool_decide as Hpar.
     - rewrite call_create_file_raw.
       destruct (decide (p = [])) as [->|Hne].
-      { rewrite ms_create_file. cbn [fst snd]. exists s, hs. eexists. split; [reflexivity|].
+      { rewrite ms_create_file. cbn [msec_sem has_parent fst snd]. exists s, hs. eexists. split; [reflexivity|].
         rewrite decide_False by (intros [H _]; congruence). cbn. auto. }
       rewrite decide_True by (apply parent_dir_abs; auto).
-      rewrite (ms_create_file_ne p s Hne).
-      rewrite bool_decide_eq_true_2 by (destruct Hpar as (d & Hd & _); eauto).
-      cbn [msec_sem]. rewrite abs_lookup.
+      rewrite ms_create_file. cbn [msec_sem]. rewrite (has_parent_true s p Hne Hpar).
+      rewrite abs_lookup.
       assert (Hfresh : forall f0 : memfile, True) by auto.
       destruct (s !! p) as [[[] c cr mo ac]|] eqn:E; cbn [fst snd fmap option_fmap option_map absf f_type f_content].
       + (* over an existing file: truncated *)
